@@ -243,7 +243,11 @@ func short(s string, n int) string {
 var xcheckStmts []string
 var xcheckCount = map[string]int{}
 
+var xcheckMu sync.Mutex
+
 func xcheck(kind string, limit int, stmt string) {
+	xcheckMu.Lock()
+	defer xcheckMu.Unlock()
 	if xcheckCount[kind] >= limit {
 		return
 	}
